@@ -912,6 +912,11 @@ def _interpret_update(src, index, local_hash, prefix, undecodable=(), garbled=()
                     if items[0][6:] in garbled:
                         return 'hash of something else'        # what was downloaded is not the patch the index lists
                     return ('ph:' if kind == prefix else 'oph:') + items[0][6:]
+                if items and isinstance(items[0], bytes) and items[0].startswith(b'patch:'):          # (the same download, taken as bytes)
+                    nm_ = items[0][6:].decode()
+                    if nm_ in garbled:
+                        return 'hash of something else'
+                    return ('ph:' if kind == prefix else 'oph:') + nm_
             raise AnalysisError('C19 scenario: hash of %r' % (x,))
         return hk
 
@@ -924,6 +929,17 @@ def _interpret_update(src, index, local_hash, prefix, undecodable=(), garbled=()
             # the patch leads to (or away from) a version that is not valid UTF-8: reading it as text fails
             raise H.Raised('UnicodeDecodeError', it.h.version, 0)
         return it.h.new_list(['patch:' + url.split('.diff/')[1][:-3]])
+
+    def h_dl_any(it, args, kw):
+        # the private download helper: (url, text) -- text as above, bytes always readable
+        text = args[1] if len(args) > 1 else kw.get('text', True)
+        if text:
+            return h_dl_patch(it, args[:1], kw)
+        url = args[0].concrete() if hasattr(args[0], 'concrete') else args[0]
+        if not isinstance(url, str) or '.diff/' not in url or not url.endswith('.gz'):
+            raise AnalysisError('C19 scenario: patch URL %r' % (url,))
+        log.append(('patch-bytes', url.split('.diff/')[1][:-3]))
+        return it.h.new_list([b'patch:' + url.split('.diff/')[1][:-3].encode()])
 
     def h_ed(it, args, kw):
         name = it.h.items(args[0])[0][6:]
@@ -942,7 +958,7 @@ def _interpret_update(src, index, local_hash, prefix, undecodable=(), garbled=()
     hooks = {'open': lambda it, a, k: it.h.alloc('Stream', {}), '.readlines': lambda it, a, k: it.h.new_list(['line\n'], '@locallines'),
              'urlopen': lambda it, a, k: (log.append(('urlopen', a[0])), it.h.alloc('Stream', {}))[1],
              'PackageFile': lambda it, a, k: it.h.new_list([it.h.new_list([(x, y) for x, y in para]) for para in index]),
-             'read_lines_sha256': h_hash('SHA256'), 'read_lines_sha1': h_hash('SHA1'), 'download_gunzip_lines': h_dl_patch,
+             'read_lines_sha256': h_hash('SHA256'), 'read_lines_sha1': h_hash('SHA1'), 'download_gunzip_lines': h_dl_patch, '_download_gunzip': h_dl_any,
              'patches_from_ed_script': h_ed, 'patch_lines': h_patch_lines,
              'download_file': lambda it, a, k: (log.append(('full',)), 'FULL')[1],
              'replace_file': lambda it, a, k: log.append(('replace', state['hash'])), 'print': lambda it, a, k: None}
@@ -978,7 +994,7 @@ def r10_index_scenarios(rep, src):
         def judge(rule, what, idx, local, must_patch, undecodable=(), **faults):
             out, log = _interpret_update(src, idx, local, prefix, undecodable, **faults)
             applied = [e[1] for e in log if e[0] == 'apply']
-            fetched = [e[1] for e in log if e[0] == 'patch']
+            fetched = [e[1] for e in log if e[0] == 'patch']          # (a second look at the same patch as bytes is logged as 'patch-bytes')
             repl = [e for e in log if e[0] == 'replace']
             full = [e for e in log if e[0] == 'full']
             starts = [j for j, (hh, _) in enumerate(H_) if hh == local]
@@ -1000,6 +1016,17 @@ def r10_index_scenarios(rep, src):
         # read as text -- like a local copy or an index that cannot be decoded, that is a reason for the full download, not an error
         for bad_patch, local in (('P1', 'h1'), ('P2', 'h1'), ('P0', 'h0'), ('P3', 'h3')):
             judge('C19.R8', '[%s] patch %s cannot be decoded (a version that is not UTF-8), local copy at %s' % (prefix, bad_patch, local), index(), local, False, (bad_patch,))
+        # ... while a patch that cannot be decoded because it was DAMAGED on the way (its bytes do not have the hash the index lists) is a
+        # garbled patch like any other: an error, nothing written, no full download behind the caller's back
+        for bad_patch, local in (('P1', 'h1'), ('P2', 'h1'), ('P0', 'h0')):
+            out_, log_ = _interpret_update(src, index(), local, prefix, (bad_patch,), garbled=(bad_patch,))
+            what_ = '[%s] patch %s is damaged so that it cannot be decoded, local copy at %s' % (prefix, bad_patch, local)
+            if out_ == ('raise', 'ValueError') and not any(e_[0] in ('replace', 'full') for e_ in log_):
+                rep.ok('C19.R1', f.site, what_, 'raises ValueError, nothing written')
+            else:
+                rep.fail('C19.R1', f.site, what_, '%s after %s; a downloaded patch that does not match the hash recorded in the index is an error with the local file left as it '
+                         'was -- whether the damage leaves it decodable or not' % ('raises %s' % out_[1] if out_[0] == 'raise' else 'returns %r' % (out_[1],),
+                                                                                    ', '.join(' '.join(map(str, e_)) for e_ in log_[1:]) or 'reading the index'), where=f.where)
         # a patch the index lists faithfully but that cannot be used here (a command the ed reader does not know, an address beyond the
         # file): the full download -- the repository is intact, only this way of getting there is closed
         for bad_patch, local in (('P1', 'h1'), ('P2', 'h1'), ('P0', 'h0')):
@@ -1080,7 +1107,10 @@ def r9_faithful_io(rep, src):
             if isinstance(d_, ast.Constant):
                 defaults[p_.arg] = d_.value
         here = 0
-        for c in walk_no_nested(f.node):
+        # (the function itself, and the private module-level helpers it calls -- the stream may be opened there)
+        bodies = [f.node] + [mod.funcs[c_.func.id].node for c_ in walk_no_nested(f.node) if isinstance(c_, ast.Call) and isinstance(c_.func, ast.Name)
+                             and c_.func.id.startswith('_') and c_.func.id in mod.funcs]
+        for c in [x_ for b_ in bodies for x_ in walk_no_nested(b_)]:
             if not (isinstance(c, ast.Call) and norm(c.func) in ('open', 'gzip.open', 'io.open', 'codecs.open', 'io.TextIOWrapper', 'TextIOWrapper', 'gzip.GzipFile', 'GzipFile',
                                                                   'os.fdopen', 'bz2.open', 'lzma.open')):
                 continue
